@@ -1,5 +1,6 @@
 import Drivers.Wire
 import Model.Queued
+import Model.QueuedLog
 
 /-!
 Driver for C17 (stateful, one session at a time).  Resources are natural numbers.
@@ -7,6 +8,10 @@ Driver for C17 (stateful, one session at a time).  Resources are natural numbers
 requests
   {"op":"init","queue":[r..],"pop":n,"workers":n,"pre":bool}    pre = the pinned tree's model (witness replay)
   {"op":"submit","n":k} | {"op":"take","j":i} | {"op":"start","j":i} | {"op":"end","j":i} | {"op":"release","j":i} | {"op":"cancel","j":i}
+  {"op":"check","queue":[r..],"pop":n,"events":[{"e":"submit","n":k}|{"e":"start","j":i,"recv":[r..]|null}|
+        {"e":"end","j":i}|{"e":"closed","queue":[r..]}..],"metas":[[r..]|null..],"returned":[i..],"final_queue":[r..],
+        "error":bool} -> {"ok":true,"spec":bool,"clause":str|null,"first_bad":i|null}   (`checkLog`, theorem C17_checker,
+        evaluated on the log of the REAL evaluator)
 reply
   {"ok":true,"enabled":bool,"err":null|"indexError","queue":[..],"phase":..,"ds":[..]|null,"recv":[..]|null,
    "meta":[..]|null,"measure":n,"running":[job..]}
@@ -40,6 +45,51 @@ def reply (enabled : Bool) (err : Json) (s : QState Nat) (j : Option Nat) : Json
   Json.mkObj ([("ok", Json.bool true), ("enabled", Json.bool enabled), ("err", err), ("queue", ofNats s.queue),
     ("measure", Json.num (JsonNumber.fromNat (measure s))), ("running", ofNats (runningJobs s))] ++ ph)
 
+/-! ### the verified checker on an observed log -/
+
+def jOptNats (j : Json) : Except String (Option (List Nat)) :=
+  match j with
+  | .null => pure none
+  | _ => do return some (← jList jNat j)
+
+def jLEv (j : Json) : Except String (LEv Nat) := do
+  match (← jStr (← field j "e")) with
+  | "submit" => return .submit (← jNat (← field j "n"))
+  | "start" => return .start (← jNat (← field j "j")) (← jOptNats (← field j "recv"))
+  | "end" => return .endRun (← jNat (← field j "j"))
+  | "closed" => return .closed (← jList jNat (← field j "queue"))
+  | e => throw s!"bad event {e}"
+
+/-- which clause fails (a reporting aid; the verdict is `checkLog`) -/
+def diagnoseLog (lg : Log Nat) : Option Nat × String :=
+  match firstBadEv lg.q0 lg.pop LAcc.init 0 lg.events with
+  | some (i, .closed _) => (some i, "returned")
+  | some (i, .start _ recv) =>
+    (some i, match recv with
+      | some l => if l.length != lg.pop then "count" else "exclusive"
+      | none => "count")
+  | some (i, _) => (some i, "?")
+  | none =>
+    let a := accAfter LAcc.init lg.events
+    if lg.error then (none, "progress")
+    else if !(decide lg.returned.Nodup) ||
+        !((List.range a.nsub).all (fun j => lg.returned.contains j || decide (j < a.closedOver))) then (none, "progress")
+    else if !(lg.finalQueue.isPerm lg.q0) then (none, "returned")
+    else (none, "metadata")
+
+def handleCheck (j : Json) : Except String Json := do
+  let lg : Log Nat :=
+    { q0 := ← jList jNat (← field j "queue"), pop := ← jNat (← field j "pop"),
+      events := ← jList jLEv (← field j "events"), metas := ← jList jOptNats (← field j "metas"),
+      returned := ← jList jNat (← field j "returned"), finalQueue := ← jList jNat (← field j "final_queue"),
+      error := ← jBool (← field j "error") }
+  let spec := checkLog lg
+  if spec then
+    return Json.mkObj [("ok", true), ("spec", true), ("clause", Json.null), ("first_bad", Json.null)]
+  let (i, c) := diagnoseLog lg
+  return Json.mkObj [("ok", true), ("spec", false), ("clause", c),
+    ("first_bad", match i with | some k => Json.num (JsonNumber.fromNat k) | none => Json.null)]
+
 def handle (s : Option Sess) (j : Json) : Except String (Option Sess × Json) := do
   let op ← (← field j "op").getStr?
   if op == "init" then
@@ -49,6 +99,8 @@ def handle (s : Option Sess) (j : Json) : Except String (Option Sess × Json) :=
     let pre ← jBool (fieldD j "pre" (Json.bool false))
     let st : PreState Nat := { st := init q pop w, slot := none }
     return (some { pre, st }, reply true Json.null st.st none)
+  if op == "check" then
+    return (s, ← handleCheck j)
   match s with
   | none => throw "no session: send init first"
   | some se =>
